@@ -493,6 +493,25 @@ def step(t):
         return t[1][0]                      # str() of a string
     if t[0] == 'array' and t[3][0] == 'idx' and t[3][2] == t[2] and array_len(t[3][1]) == t[1] and not contains(t[3][1], lambda x: x == t[2]):
         return t[3][1]                      # [X[i] for i in range(len(X))] == X
+    if t[0] == 'bool' and t[1] == 'and':
+        # `x.attr ... and x is not None`: an operand evaluated after x was dereferenced cannot find x to be None
+        ops = list(t[2])
+        for i_, o in enumerate(ops):
+            if o[0] == 'cmp' and o[1] in ('NotEq', 'IsNot') and o[3] == NONE and o[2][0] == 'bvar' \
+                    and any(contains(p_, lambda y: y[0] == 'attr' and y[1] == o[2]) and not contains(p_, lambda y: y[0] in ('ite', 'bool')) for p_ in ops[:i_]):
+                return AND(*(ops[:i_] + ops[i_ + 1:]))
+    if t[0] == 'fstr' and t[1] and all(x[0] == 'const' and isinstance(x[1], (str, int)) and not isinstance(x[1], bool) for x in t[1]):
+        return C(''.join(str(x[1]) for x in t[1]))          # str(0) is '0'
+    if t[0] == 'array' and t[3][0] != 'idx':
+        # [f(X[i]) for i in range(N)] with X an overwrite-scatter into an array of N defaults: f moves into the scatter
+        # (the last value written to a slot, or the default, is what f is applied to)
+        hits = [x for x in walk(t[3]) if x[0] == 'idx' and x[2] == t[2] and x[1][0] == 'accum' and x[1][1][0] == 'array']
+        if len(hits) == 1 and sum(1 for x in walk(t[3]) if x == t[2]) == 1:
+            acc = hits[0][1]
+            if acc[1][1] == t[1] and acc[2] and all(e[0] == 'setidx' for e in acc[2]) and not contains(acc, lambda x: x == t[2]) \
+                    and not contains(acc, lambda x: x[0] in ('carried', 'prefix')):
+                f = lambda v: replace(t[3], hits[0], v)
+                return ('accum', ('array', acc[1][1], acc[1][2], f(acc[1][3])), tuple((op, k_, f(v_), ch_) for op, k_, v_, ch_ in acc[2])) + tuple(acc[3:])
     r = string_step(t)
     if r is not None:
         return r
